@@ -686,6 +686,13 @@ def _run(w, plan):
             for v in ([snap] if snap else []) + versions[-3:]:
                 if v:
                     cand.add(java_partition(s["key"], list(v)))
+            # a list may have been held only inside one event (two metadata answers in one delivery): every list a
+            # metadata answer delivered to this client before the call carried for the topic is a candidate too
+            for e in cl.reqlog:
+                if e["key"] == kwire.METADATA and e.get("delivered_seq") is not None and e["delivered_seq"] <= c["seq"] and e.get("resp_body"):
+                    for t in e["resp_body"]["topics"]:
+                        if t["name"] == s["topic"] and t["partitions"]:
+                            cand.add(java_partition(s["key"], sorted(p["id"] for p in t["partitions"])))
             if chosen not in cand:
                 res.violate("C18", "C18:hashed-partition-differs-from-java", "send %d key %r -> partition %d, Java client: %r (lists %r)" % (
                     sid, s["key"], chosen, sorted(cand), versions[-2:]))
